@@ -179,8 +179,9 @@ func runSchedule(id int, sc schedCase, ref map[string]string) map[string]any {
 			case strings.HasSuffix(point, ".get"):
 				evs = append(evs, Event{E: "get", G: g, I: instIDs.of(ptrOf(inst)), P: poolOf(point)})
 				park(g, point)
-			case strings.HasSuffix(point, ".put"):
+			case strings.HasSuffix(point, ".putting"): // just before pool.Put: the instance is released
 				evs = append(evs, Event{E: "put", G: g, I: instIDs.of(ptrOf(inst)), P: poolOf(point)})
+			case strings.HasSuffix(point, ".put"): // just after pool.Put: scheduling gate only
 				park(g, point)
 			case strings.HasSuffix(point, ".locked"):
 				evs = append(evs, Event{E: "lock", G: g, M: strings.Split(point, ".")[0]})
@@ -298,7 +299,7 @@ func runFree(run, n, m int, seed int64, ref map[string]string, menu []*Op) map[s
 			switch {
 			case strings.HasSuffix(point, ".get"):
 				ev.E, ev.I, ev.P = "get", instIDs.of(ptrOf(inst)), poolOf(point)
-			case strings.HasSuffix(point, ".put"):
+			case strings.HasSuffix(point, ".putting"): // recorded BEFORE the real Put, so that no Get of the same instance can precede it
 				ev.E, ev.I, ev.P = "put", instIDs.of(ptrOf(inst)), poolOf(point)
 			case strings.HasSuffix(point, ".locked"):
 				ev.E, ev.M = "lock", strings.Split(point, ".")[0]
